@@ -78,6 +78,8 @@ pub struct SynF {}
 #[unit(delta_low, "δ")]
 #[unit(Mid_Twin, "m")]
 #[unit(AlphaZed, "αz")]
+#[unit(Zetaform, "zf")]
+#[unit(ZetaForm, "zF")]
 pub struct SynN {}
 
 /// Single unit.
